@@ -110,7 +110,15 @@ func init() {
 					rig.settleQuick()
 				}
 			} else {
+				// users mode requests work for as long as it is not stopped: with a limit, let it run until the
+				// limit has been reached (or 5 s — a pool that cannot get there in that time has stalled)
 				time.Sleep(time.Duration(ticks) * time.Millisecond)
+				if limit > 0 {
+					dl := time.Now().Add(5 * time.Second)
+					for rig.manager.VerifIterationCounter() < limit && time.Now().Before(dl) {
+						time.Sleep(200 * time.Microsecond)
+					}
+				}
 				requested = 1 << 30
 			}
 			rig.cancel()
